@@ -108,6 +108,65 @@ def hw_grouping(u, rep, dtype, rank, axis, k, length, timeout):
         rep.obligation(oname, MOD + '::HammingWeight._compute', 'post', res, sample='result[.., g, ..] == sum_{j<k} popcount(data[.., g*k+j, ..]); other extents symbolic')
         if res['result'] == 'sat': rep.violation(oname, MOD + '::HammingWeight._compute', 'grouped Hamming weight differs', case, str(res['model'])[:500], *native(case))
 
+def hw_grouping_inv(u, rep, dtype, rank, axis, k, timeout):
+    """HammingWeight(nb_words=k) with the grouped axis of SYMBOLIC length: loop invariant of the grouping loop --
+    after i groups, result[.., g, ..] == sum_{j<k} popcount(data[.., g*k+j, ..]) for g < i and 0 for g >= i (every extent symbolic)"""
+    from pyvc import loops
+    fn = MOD + '::HammingWeight._compute'; bits = 8 * _rnp.dtype(dtype).itemsize
+    oname = 'HammingWeight,%s,rank%d,axis%d,k%d, symbolic length' % (dtype, rank, axis, k)
+    case = dict(kind='hw_group', dtype=dtype, rank=rank, axis=axis, k=k, length=3 * k + 1)
+    def body():
+        dims = [core.sym_int('D%d' % ax, k if ax == axis else 1) for ax in range(rank)]
+        data = H.sym_ints('X', tuple(dims), dtype)
+        model = u.mod.HammingWeight(nb_words=k, expected_dtype=dtype); u.pending = []
+        st = {}
+        def expected(J, upto):      # J: storage index of `result` (same axis order as data, grouped axis holds the group number)
+            g = zi(J[axis]); acc = None
+            for j in range(k):
+                di = [SInt(zi(x)) for x in J]; di[axis] = SInt(g * k + j)
+                t = popcount_term(data.at(*di).z, 32); acc = t if acc is None else acc + t
+            return z3.If(g < upto, acc, z3.BitVecVal(0, 32))
+        gidx = [z3.Int('gi%d!' % ax) for ax in range(rank)]
+        def cur():
+            res = st['result']                                   # view with axes 0 and `axis` swapped
+            vi = list(gidx); vi[0], vi[axis] = vi[axis], vi[0]
+            return core.cast(res.at(*[SInt(x) for x in vi]), 'uint32').z
+        def grange(groups): return [z3.And(x >= 0, x < (zi(groups) if ax == axis else zi(dims[ax]))) for ax, x in enumerate(gidx)]
+        def establish():
+            import inspect
+            fr = [f for f in inspect.stack() if f.function == '_compute' and 'final_w_dimension' in f.frame.f_locals]
+            st['result'] = fr[0].frame.f_locals['result']; st['groups'] = fr[0].frame.f_locals['final_w_dimension']
+            loops.oblige('grouping loop: invariant on entry (result all zero) [%s]' % oname, 'invariant-init', z3.Implies(z3.And(*grange(st['groups'])), cur() == expected(gidx, z3.IntVal(0))))
+        def havoc(i):
+            iz = zi(i); res = st['result']
+            res.st.set(lambda J: SBV(expected(J, iz), 'uint32'))
+        def preserve(i):
+            loops.oblige('grouping loop: invariant preserved (group i holds the sum of its k Hamming weights, other groups untouched) [%s]' % oname, 'invariant-step', z3.Implies(z3.And(*grange(st['groups'])), cur() == expected(gidx, zi(i) + 1)))
+        lc = loops.LoopCut('hwg', lambda it: st['groups'] if 'groups' in st else L.shim_len(it), lambda it, i: i, establish, havoc, preserve)
+        # the count is read after establish() has located the frame: LoopCut calls count first, so locate it there too
+        def count(it):
+            import inspect
+            fr = [f for f in inspect.stack() if f.function == '_compute' and 'final_w_dimension' in f.frame.f_locals]
+            return fr[0].frame.f_locals['final_w_dimension']
+        lc.count = count
+        L.set_task(loops={fn + '#0': lc})
+        try: out = model(data, axis=axis if axis != rank - 1 else -1)
+        finally: L.set_task(loops={})
+        groups = st.get('groups')
+        ok_shape = out.ndim == rank and all(H.structurally_equal([out.shape[a]], [data.shape[a]]) for a in range(rank) if a != axis)
+        loops.oblige('post: shape -- grouped axis has length // k entries, other dimensions preserved [%s]' % oname, 'post', z3.And(z3.BoolVal(bool(ok_shape)), zi(out.shape[axis]) == zi(dims[axis]) / k))
+        got = core.cast(out.at(*[SInt(x) for x in gidx]), 'uint32').z
+        loops.oblige('post: result[.., g, ..] == sum_{j<k} popcount(data[.., g*k+j, ..]) for every group, trailing remainder dropped [%s]' % oname, 'post', z3.Implies(z3.And(*grange(zi(dims[axis]) / k)), got == expected(gidx, zi(dims[axis]) / k)))
+        return lc.entered
+    for p, outc, exc in core.explore(body):
+        if exc is not None:
+            rep.obligation('loop-invariant proof[%s]' % oname, fn, 'post', dict(result='sat', backend='exec', secs=0), sample=repr(exc)); rep.violation('loop-invariant proof[%s]' % oname, fn, 'raises %r' % (exc,), case, None, *native(case)); continue
+        if outc != 1: rep.errors.append('grouping loop contract entered %s times [%s]' % (outc, oname))
+        for ob in p.obligations:
+            res = solve.discharge(ob['pc'], ob['goal'], timeout_ms=timeout)
+            rep.obligation(ob['name'], fn, ob['kind'], res, sample='every extent symbolic, generic index')
+            if res['result'] == 'sat': rep.violation(ob['name'], fn, ob['name'], case, str(res['model'])[:400], *native(case))
+
 def monobit(u, rep, dtype, bit, timeout):
     def body():
         N = core.sym_int('N', 1); W = core.sym_int('W', 1)
@@ -240,6 +299,8 @@ def main():
                     for ln in lens:
                         if a.tier == 'quick' and dt not in ('uint8', 'uint32') and (rank, ln) not in ((2, 4), (3, 5)): continue
                         units.append(('grp', dt, rank, axis, k, ln))
+    for dt, rank, axis, k in (('uint8', 1, 0, 2), ('uint8', 2, 0, 2), ('uint8', 2, 1, 2), ('uint16', 3, 1, 2)) + ((('uint8', 1, 0, 4), ('uint8', 2, 1, 3), ('uint32', 2, 1, 2), ('uint64', 3, 2, 2), ('uint8', 3, 0, 5), ('uint16', 2, 0, 3)) if a.tier != 'quick' else ()):      # quick: k = 2 (z3 decides at once); larger k needs cvc5 (tens of seconds each)
+        units.append(('grpinv', dt, rank, axis, k))
     for dt in ('uint8', 'int8', 'uint16', 'int16', 'uint32', 'int32', 'uint64', 'int64'):
         for b in range(9): units.append(('mono', dt, b))
     for name in ('nanmax', 'maxabs', 'opposite_min', 'nansum', 'abssum'):
@@ -250,6 +311,7 @@ def main():
     def work(sub, kind, *args):
         if kind == 'hw': hw_scalar(u, sub, args[0], timeout)
         elif kind == 'grp': hw_grouping(u, sub, *args, timeout)
+        elif kind == 'grpinv': hw_grouping_inv(u, sub, *args, timeout)
         elif kind == 'mono': monobit(u, sub, args[0], args[1], timeout)
         elif kind == 'disc': discriminant(u, sub, *args, timeout)
     groups = [tuple(units[i:i + 8]) for i in range(0, len(units), 8)]
